@@ -12,7 +12,15 @@ import (
 	"verif/harness/lib"
 )
 
-type M = lib.M
+type (
+	M   = lib.M
+	Rng = lib.Rng
+)
+
+func Hex(b []byte) string          { return lib.Hex(b) }
+func U(n uint64) string            { return lib.U(n) }
+func Safe(f func() any) any        { return lib.Safe(f) }
+func Pick[T any](r *Rng, xs []T) T { return lib.Pick(r, xs) }
 
 // Violation extends lib.Violation with the stable key matched against known_findings.json.
 type Violation struct {
